@@ -918,4 +918,19 @@ for _t in specs.TYPES:
                         nontrivial_required=_rel != "same"))
 SUBS.append(Sub("files", run_files, strategy=files_strategy, budget=(150, 4000), shards=(2, 16),
                 rule="pairs of file images (copy / metadata-only difference / slot count / version / one block changed, removed, added): Tdf == Tdf vs expectation"))
+def enum_file_relations(tier):
+    """every file-level relation on fixed files (three labelled blocks), several picks each: what the sampled sub-check reaches on average is
+    reached for certain"""
+    from .c07 import labelled_spec
+
+    blocks = [{"spec": labelled_spec(t, 2), "comment": t, "cdate": 5, "mdate": 6} for t in ("events", "emg", "data3D")]
+    for rel in ("copy", "metadata-only", "slot-count", "version", "block-changed", "block-removed", "block-added", "block-order", "in-session-remove", "in-session-add",
+                "in-session-replace"):
+        for n in (3, 5, 14):
+            for pick in range(6):
+                yield {"N": n, "version": 1, "blocks": blocks, "rel": rel, "pick": pick, "comment2": "other comment", "date2": 77}
+
+
+SUBS.append(Sub("files-each-relation", run_files, kind="enum", enumerate=enum_file_relations, shards=(4, 8),
+                rule="fixed files (events + EMG + 3D data) x each of the 11 file relations x table lengths {3,5,14} x 6 picks; finite, enumerated", nontrivial_required=False))
 TIME_BUDGET = {"quick": 150, "thorough": 1500}
